@@ -1,7 +1,8 @@
 #!/bin/bash
 # tools/check_seeded.sh — mutation self-test: every seeded change must be caught by the quick tier of its property's check
-cd /verif
-res=/verif/out/seeded_selftest.txt; : > $res
+cd "$(dirname "$0")/.."
+mkdir -p out
+res=out/seeded_selftest.txt; : > $res
 for d in seeded/*/; do
   n=$(basename $d); id=${n%%-*}
   out=$(tools/try_mutant.sh $d/patch.diff $id 2>&1 | tail -1)
